@@ -12,3 +12,11 @@ try:
     from pyvc.oracles_c import *  # noqa: F401,F403  C11, C12, C13, C15, C18, C19, C20
 except ImportError:
     pass
+
+# cases that start a child interpreter each: small chunks so that the pool actually runs them in parallel
+CHUNK_C15 = 2
+CHUNK_C19 = 20
+CHUNK_C20 = 20
+
+# class predicates of the open known findings (maintained by hand, see pyvc/findings.py) override the placeholders
+from pyvc.findings import *  # noqa: F401,F403,E402
